@@ -104,7 +104,7 @@ def run_property(pid, tier, seed):
             print("INCONCLUSIVE property=%s reason=overlay: %s" % (pid, e))
             write_evidence(pid, tier, seed, spec, [], [], [], ["overlay: %s" % e], time.time() - t_start)
             return 2
-        logd = os.path.join(VERIF, "logs", pid)
+        logd = os.path.join(VERIF, "logs", pid + ("-" + os.path.basename(overlay.REPO) if overlay.REPO != "/repo" else ""))
         shutil.rmtree(logd, ignore_errors=True)
         os.makedirs(logd, exist_ok=True)
         workers = int(os.environ.get("VERIF_JOBS", "6"))
@@ -319,6 +319,8 @@ def harvest_witnesses(pid):
 
 
 def write_evidence(pid, tier, seed, spec, results, violations, known_hits, inconclusive, wall):
+    if os.environ.get("VERIF_NO_EVIDENCE"):
+        return  # maintenance runs against other trees (seeded changes) must not touch the evidence of /repo
     os.makedirs(os.path.join(VERIF, "evidence"), exist_ok=True)
     n_checks = sum(r.get("n_checks", 0) for r in results)
     discharged = [r for r in results if r.get("verdict") == "SUCCESSFUL" and not r.get("timed_out")]
